@@ -780,6 +780,22 @@ def _probe(o):
     t.next()
     t.prev()
     list(o.nulltree.nodes())
+    # copies of a positioned tree (with and without sample lists) must be usable on their own: moved both ways,
+    # re-positioned and read
+    for sl in (True, False):
+        src = tskit.Tree(o.ts, sample_lists=sl, tracked_samples=list(o.samples[:1]))
+        src.seek_index(o.ts.num_trees // 2)
+        for moves in (("next", "prev", "prev"), ("prev", "next", "next"), ("last", "prev"), ("first", "next")):
+            c = src.copy()
+            for mv in moves:
+                getattr(c, mv)()
+            if sl:
+                [list(c.samples(u)) for u in range(min(o.n, 10))]
+            c.num_tracked_samples(c.virtual_root)
+        src.next()
+        c = src.copy()
+        c.seek_index(0)
+        c.seek(o.L / 2)
     o.ts.tables.asdict()
     o.ts.genotype_matrix(isolated_as_missing=False)
     _probe_tables(o.tables)
